@@ -116,7 +116,7 @@ def stepEvent (P : Partition) (s : GState Unit) : Sx → Except String (GState U
         match (P.parts r).find? (fun p => p.pid == pid) with
         | none => .error s!"exec-unknown-part r={r} pid={pid}"
         | some p =>
-          if r < P.length ∧ p.ready (s.rk r) then .ok (execG unitSem s r p)
+          if r < P.length ∧ p.ready (s.rk r) then .ok (execG unitSem P s r p)
           else .error s!"exec-not-enabled r={r} pid={pid}"
     | _, _, _ => .error "parse-x"
   | .list [.atom "w", r, a, b, c, d] =>
